@@ -1,12 +1,13 @@
 // C14 — encodings round-trip and are canonical. Five monitors over the real codecs:
-//   value : generated values of every consensus type -> decode(encode(v)) == v, same hashes, same
-//           recovered signers, byte-identical re-encoding for hashed/signed objects, JSON round trip of
-//           transactions and box payloads;
-//   canon : non-canonical variants of valid encodings must be rejected by rlp.DecodeBytes;
-//   bytes : mutated / random byte strings into every RLP decoder: value or error, never a panic,
-//           allocation in proportion to the input;
-//   text  : the same for the JSON and text decoders (transactions, box payloads, hexutil, addresses);
-//   addr  : Lemo address text round trip, case-insensitivity, single-character corruptions.
+//
+//	value : generated values of every consensus type -> decode(encode(v)) == v, same hashes, same
+//	        recovered signers, byte-identical re-encoding for hashed/signed objects, JSON round trip of
+//	        transactions and box payloads;
+//	canon : non-canonical variants of valid encodings must be rejected by rlp.DecodeBytes;
+//	bytes : mutated / random byte strings into every RLP decoder: value or error, never a panic,
+//	        allocation in proportion to the input;
+//	text  : the same for the JSON and text decoders (transactions, box payloads, hexutil, addresses);
+//	addr  : Lemo address text round trip, case-insensitivity, single-character corruptions.
 package main
 
 import (
@@ -29,17 +30,17 @@ import (
 
 // Case is one executed case and the replay witness.
 type Case struct {
-	Mon     string      `json:"mon"`               // value | canon | bytes | text | addr
-	Type    string      `json:"type,omitempty"`    // codec / decoder / target name
-	Tree    interface{} `json:"tree,omitempty"`    // value witness (see tree.go)
-	Hex     string      `json:"hex,omitempty"`     // byte string offered to the decoder(s)
-	Form    string      `json:"form,omitempty"`    // non-canonical form / mutation kind
-	Node    string      `json:"node,omitempty"`    // the non-canonical item alone
+	Mon     string      `json:"mon"`            // value | canon | bytes | text | addr
+	Type    string      `json:"type,omitempty"` // codec / decoder / target name
+	Tree    interface{} `json:"tree,omitempty"` // value witness (see tree.go)
+	Hex     string      `json:"hex,omitempty"`  // byte string offered to the decoder(s)
+	Form    string      `json:"form,omitempty"` // non-canonical form / mutation kind
+	Node    string      `json:"node,omitempty"` // the non-canonical item alone
 	NodeK   string      `json:"nodeKind,omitempty"`
 	Owner   string      `json:"owner,omitempty"`
-	Text    string      `json:"text,omitempty"`    // text offered to a text decoder (hex of the bytes when not UTF-8: see TextHex)
+	Text    string      `json:"text,omitempty"` // text offered to a text decoder (hex of the bytes when not UTF-8: see TextHex)
 	TextHex string      `json:"textHex,omitempty"`
-	Addr    string      `json:"addr,omitempty"`    // address (hex) the text was derived from
+	Addr    string      `json:"addr,omitempty"` // address (hex) the text was derived from
 	Shape   string      `json:"shape,omitempty"`
 	What    string      `json:"what,omitempty"`
 }
@@ -128,25 +129,24 @@ func (m *mon) checkValue(cd *codec, v interface{}, cs *Case) bool {
 		m.viol(cs, "decoded-value-not-encodable:"+cd.name, err.Error())
 		return false
 	}
-	if !bytes.Equal(enc, enc2) {
-		switch {
-		case cd.hashed:
-			m.viol(cs, "reencode-differs:"+cd.name, fmt.Sprintf("encode(decode(b)) != b: b=%x re-encoded=%x", clip(enc), clip(enc2)))
+	switch {
+	case cd.mapped:
+		// a Go map inside: the byte order of the records follows map iteration, so value equality of a
+		// second pass is what is required (and counted the same whatever order this run happened to see)
+		c.Stat("mapped_values_second_pass", 1)
+		into2 := cd.fresh()
+		if err := rlp.DecodeBytes(enc2, into2); err != nil || dump(into2) != d1 {
+			m.viol(cs, "roundtrip-differs:"+cd.name, fmt.Sprintf("second pass differs (err %v)", err))
 			ok = false
-		case cd.mapped:
-			// map iteration order: value equality of a second pass is what is required
-			c.Stat("reencodings_differing_by_map_order", 1)
-			into2 := cd.fresh()
-			if err := rlp.DecodeBytes(enc2, into2); err != nil || dump(into2) != d1 {
-				m.viol(cs, "roundtrip-differs:"+cd.name, fmt.Sprintf("second pass differs (err %v)", err))
-				ok = false
-			}
-		default:
-			c.Stat("reencodings_differing_unhashed", 1)
-			c.Seen("unhashed_types_reencoding_differently", cd.name)
 		}
-	} else {
+	case bytes.Equal(enc, enc2):
 		c.Stat("reencodings_identical", 1)
+	case cd.hashed:
+		m.viol(cs, "reencode-differs:"+cd.name, fmt.Sprintf("encode(decode(b)) != b: b=%x re-encoded=%x", clip(enc), clip(enc2)))
+		ok = false
+	default:
+		c.Stat("reencodings_differing_unhashed", 1)
+		c.Seen("unhashed_types_reencoding_differently", cd.name)
 	}
 	if cd.viaMsg {
 		into3 := cd.fresh()
@@ -317,6 +317,7 @@ func (m *mon) canonCase(t *target, r *run.Rng) {
 	if err != nil {
 		return
 	}
+	enc = stabilise(t.name, enc)
 	muts, err := canonMutants(enc, t.schema, func(n int) []int {
 		// all nodes of small objects, a random subset of big ones
 		if n <= 24 {
